@@ -1393,10 +1393,58 @@ def c09_bound(ctx):
         ctx.check("eval_expr()" in deps or "int()" in deps, c, "pre_dispatch bound is int(eval_expr(pre_dispatch with n_jobs substituted)) or the integer given")
     # a fractional amount ('1.5*n_jobs') is truncated, never rounded up: the look-ahead may not exceed the bound
     for a in nodes_of_type(call, ast.Assign):
-        if "self._pre_dispatch_amount" in stores_to(a) and not is_const(a.value, 0):
+        if "self._pre_dispatch_amount" in stores_to(a) and not (isinstance(a.value, ast.Constant) and isinstance(a.value.value, int)):
             v = a.value
+            if isinstance(v, ast.Call) and call_name(v) == "max" and len(v.args) == 2 and any(isinstance(x, ast.Constant) for x in v.args):
+                v = [x for x in v.args if not isinstance(x, ast.Constant)][0]
             ctx.check(isinstance(v, ast.Call) and call_name(v) in ("int", "math.floor") and len(v.args) == 1, a, "the pre_dispatch amount is truncated with %s()" % (call_name(v) if isinstance(v, ast.Call) else "?"),
                       "the pre_dispatch amount is computed as %s: fractional forms such as '1.5*n_jobs' can be rounded UP, one item more than the bound is consumed ahead" % unparse(v))
+
+
+def c01_predispatch_positive(ctx):
+    """With pre_dispatch != 'all' the caller thread dispatches the first `amount` tasks and every later task is dispatched
+    by a completion callback: an amount of 0 dispatches nothing, nothing ever completes, and the call returns an empty
+    result for a non-empty input. The amount handed to islice must therefore be >= 1 on every path."""
+    call = F(ctx, "Parallel.__call__")
+    g = cfg_of(call)
+    sl = [c for c in _islice_calls(call) if c.args and dotted(c.args[0]) == "iterator" and len(c.args) >= 2]
+    ctx.need(sl, "no pre_dispatch islice in __call__")
+
+    def lower_ok(v):
+        if isinstance(v, ast.Constant) and isinstance(v.value, int) and v.value >= 1:
+            return True
+        if isinstance(v, ast.Call) and call_name(v) == "max" and any(isinstance(x, ast.Constant) and isinstance(x.value, int) and x.value >= 1 for x in v.args):
+            return True
+        if isinstance(v, ast.BoolOp) and isinstance(v.op, ast.Or) and isinstance(v.values[-1], ast.Constant) and isinstance(v.values[-1].value, int) and v.values[-1].value >= 1:
+            return True
+        return False
+
+    for c in sl:
+        amount = dotted(c.args[1])
+        names = {amount, "pre_dispatch", "self._pre_dispatch_amount"} - {None}
+        stores = [a for a in nodes_of_type(call, ast.Assign) if (set(stores_to(a)) & names) and g_in_else(call, a)]
+        if stores and all(lower_ok(a.value) for a in stores if not (isinstance(a.value, ast.Name) and a.value.id in names)):
+            ctx.ok(c, "every definition of the pre_dispatch amount is >= 1")
+            continue
+        guards = []
+        for n in nodes_of_type(call, ast.If):
+            t = n.test
+            zero = False
+            if isinstance(t, ast.Compare) and len(t.ops) == 1 and (set(attrs_in(t)) & names):
+                l, r, op = t.left, t.comparators[0], t.ops[0]
+                cl, cr = const_value(l), const_value(r)
+                zero = (isinstance(op, ast.Eq) and 0 in (cl, cr)) or (isinstance(op, ast.Lt) and cr == 1 and cl is None) or (isinstance(op, ast.LtE) and cr == 0 and cl is None) \
+                    or (isinstance(op, ast.Lt) and cl == 0 and False)
+            elif isinstance(t, ast.UnaryOp) and isinstance(t.op, ast.Not) and dotted(t.operand) in names:
+                zero = True
+            if not zero:
+                continue
+            body_ok = any(isinstance(x, ast.Raise) for x in n.body) or any(isinstance(x, ast.Assign) and (set(stores_to(x)) & names) and lower_ok(x.value) for x in n.body)
+            if body_ok and g.every_path_to(g.nodes_of(c), g.nodes_of(n)) and all(not g.path_exists(g.nodes_of(n), g.nodes_of(a)) for a in stores if a not in n.body and not any(a is y for x in n.body for y in ast.walk(x))):
+                guards.append(n)
+        ctx.check(bool(guards), c, "an amount of 0 is replaced (or rejected) before the look-ahead slice is taken",
+                  "the pre_dispatch amount can be 0 (pre_dispatch=0, or an expression such as 'n_jobs // 4' with few workers): nothing is dispatched by the caller, no completion ever "
+                  "dispatches the rest, and the call returns [] for a non-empty input", key=PAR + "::Parallel.__call__::pre_dispatch amount >= 1")
 
 
 def g_in_else(func, node):
